@@ -56,3 +56,8 @@ Theorem C18_source_shape : Gen.TrustAnchor.ta_dnskey_flags = 257 /\ Gen.TrustAnc
   Gen.TrustAnchor.ta_loop_over = "config.ksk_keys.items()"%string.
 Proof. repeat split; reflexivity. Qed.
 Print Assumptions C18_source_shape.
+
+(* two different key identifiers (or element texts) are never published as the same characters *)
+Theorem C18_written_forms_injective : (forall a b, quoteattr a = quoteattr b -> a = b) /\ (forall a b, escape a = escape b -> a = b).
+Proof. exact (conj quoteattr_injective escape_injective). Qed.
+Print Assumptions C18_written_forms_injective.
